@@ -47,6 +47,7 @@ type vsPartition struct {
 	// idempotent producer state: per producer id
 	pstate map[int64]*vsProducerState
 	// transaction index
+	okFetches int64      // fetch answers without error served for this partition
 	aborted []VSimAborted // first offset of each aborted transaction (with producer id and last offset)
 	lso     int64        // last stable offset; -1 = equals high watermark
 }
@@ -804,4 +805,16 @@ func (s *VSim) handleListOffsets(b *VSimBroker, connID int64, r *OffsetRequest) 
 		}
 	}
 	return vsTyped(res)
+}
+
+// OKFetches returns how many fetch answers without error were served for a partition.
+func (s *VSim) OKFetches(topic string, part int32) int64 {
+	s.mu.Lock()
+	defer s.mu.Unlock()
+	if t := s.topics[topic]; t != nil {
+		if p := t.parts[part]; p != nil {
+			return p.okFetches
+		}
+	}
+	return 0
 }
